@@ -151,7 +151,7 @@ func runFaultIsolation(fnNames ...string) func(p *Prog, r *Report) {
 					return true
 				}
 				f := calleeOf(info, call)
-				if f == nil || f.Name() != "Paths" {
+				if f == nil || fname(f) != "Paths" {
 					return true
 				}
 				nLoops++
@@ -296,12 +296,18 @@ func normSym(fn *Func, e ast.Expr, k, v, recv types.Object, depth int) string {
 					}
 				}
 			}
+			if f, ok := o.(*types.Func); ok {
+				return fname(f)
+			}
 			return e.Name
 		case *ast.SelectorExpr:
 			if id, ok := e.X.(*ast.Ident); ok {
 				if _, isPkg := info.ObjectOf(id).(*types.PkgName); isPkg {
 					return id.Name + "." + e.Sel.Name
 				}
+			}
+			if f, ok := info.Uses[e.Sel].(*types.Func); ok {
+				return rec(e.X, d) + "." + fname(f)
 			}
 			return rec(e.X, d) + "." + e.Sel.Name
 		case *ast.CallExpr:
@@ -512,7 +518,7 @@ func runJSONRemainder(p *Prog, r *Report) {
 				return true
 			}
 			f := calleeOf(info, call)
-			if f == nil || f.Name() != "JustAttributes" {
+			if f == nil || fname(f) != "JustAttributes" {
 				return true
 			}
 			sel, ok := ast.Unparen(call.Fun).(*ast.SelectorExpr)
@@ -529,7 +535,7 @@ func runJSONRemainder(p *Prog, r *Report) {
 				if len(as) == 1 {
 					if s, ok := as[0].(*ast.AssignStmt); ok && len(s.Rhs) == 1 && len(s.Lhs) == 3 {
 						if c, ok := ast.Unparen(s.Rhs[0]).(*ast.CallExpr); ok {
-							if cf := calleeOf(info, c); cf != nil && cf.Name() == "PartialContent" {
+							if cf := calleeOf(info, c); cf != nil && fname(cf) == "PartialContent" {
 								if lid, ok := s.Lhs[1].(*ast.Ident); ok && info.ObjectOf(lid) == o {
 									okr = true
 									detail = "receiver is the remainder returned by " + exprStr(c)
